@@ -5,6 +5,7 @@ Sorenson Spark streams: proved in full below (`one_call_one_picture`, `stream_de
 streams (where the macroblock loop may also end through the GOB resynchronisation path) are carried by the correspondence
 runs: N pictures in one reader vs. one reader per picture, both modes, paddings 0..7.
 -/
+import H263V.Lemmas.ShortAtStart
 import H263V.Model.State
 import H263V.Lemmas.SorensonPicture
 import H263V.Lemmas.StreamAny
@@ -122,5 +123,21 @@ theorem position_after_decode (s : State) (c : Cur) (s' : State) (c' : Cur) (h :
   | err e => rw [hc] at h; simp at h
   | panic m => rw [hc] at h; simp at h
   | fuel => rw [hc] at h; simp at h
+
+open H263V.State H263V.Lemmas.StreamAny H263V.Lemmas.TruncatedAny H263V.Lemmas.SorensonPicture H263V.Lemmas.PictureRoundTrip
+  H263V.Spec.Syntax H263V.Spec.Vlc in
+/-- **A short picture inside a stream (standard mode).**  A valid baseline or PLUSPTYPE picture of which only the first `n`
+macroblocks are present (`cut n p`), followed by fewer than eight zero bits inside the alignment window and then the NEXT picture's
+start code (17 bits and group number 0) with anything behind it: the call ends the picture at that start code — the macroblock
+parse fails on it, `decode_gob` recognises a picture start and consumes nothing — commits the bit-free semantics of the macroblocks
+that are there (the rest are copies of the reference, C03) and leaves the reader exactly behind the picture's last macroblock, in
+front of the stuffing, where `one_call_one_picture_any` takes over for the next call. -/
+theorem short_picture_ends_at_next_start_code (s : State) (hr : s.running = 0) (hstd : s.opts.sorenson = false) (p : Pic)
+    (w h : Nat) (hv : p.Valid s w h) (n k : Nat) (hk : k ≤ 7) (y : Bits) (pos : Nat)
+    (hwin : k ≤ realignmentBits ⟨[], pos + ((cut n p).bits s).length⟩ + 1) :
+    decodeNextPicture s ⟨(cut n p).bits s ++ (zeros k ++ (startCode ++ (natBits 5 0 ++ y))), pos⟩ =
+      semCore s (p.picture s) (p.mbs.take n) >>= fun r =>
+        .ok (commitPic s r.1 r.2, ⟨zeros k ++ (startCode ++ (natBits 5 0 ++ y)), pos + ((cut n p).bits s).length⟩) :=
+  Lemmas.ShortAtStart.decode_pic_short_at_start s hr hstd p w h hv n k hk y pos hwin
 
 end H263V.Thm.C15
